@@ -103,7 +103,7 @@ def ansTexts (r : Except PyErr (List T)) : String :=
 
 def decVariant? (s : String) : Option Variant :=
   match s.toList with
-  | [a, b, c, d, e] => some ⟨a == '1', b == '1', c == '1', d == '1', e == '1'⟩
+  | [a, b, c, d, e, f] => some ⟨a == '1', b == '1', c == '1', d == '1', e == '1', f == '1'⟩
   | _ => none
 
 /-- negative `_length` (only reachable through the `right_crop` defect) is outside the modelled domain -/
@@ -235,8 +235,8 @@ def handlers : List (String × (List String → String)) := [
   ("text_truncate", h1 fun _ t a => match a with
     | [w, ov, pad] => do pure (ansText (.ok (t.truncate cw (← decInt? w) (← decOverflow? ov) (decBool pad))))
     | _ => none),
-  ("text_align", h1 fun _ t a => match a with
-    | [m, w, c] => do pure (ansText (.ok (t.align cw (← decAlign? m) (← decInt? w) (← decChar? c))))
+  ("text_align", h1 fun v t a => match a with
+    | [m, w, c] => do pure (ansText (.ok (t.align v cw (← decAlign? m) (← decInt? w) (← decChar? c))))
     | _ => none),
   ("text_expand_tabs", h1 fun v t a => match a with
     | [ts] => do pure (ansText (t.expandTabs v (← decOptNat? ts)))
